@@ -116,3 +116,27 @@ Proof.
   - simpl in H. inversion H as [[Hx Hl]]. simpl. rewrite (dt_translate_idem d x y W Hx).
     rewrite (IH r Hl). reflexivity.
 Qed.
+
+(* ---- the missing ("No Data") element(s) may sit ANYWHERE in the payload ----------------------
+   The crosswalk is keyed by each element's OWN id field; elements after a missing one are NOT
+   renumbered (their id is not their rank among the non-missing elements). *)
+Lemma dt_translate_position_after_missing pre m post p v :
+  dt_wf (pre ++ (m, DMissing) :: post) -> In (IInt p, DVal v) post ->
+  dt_translate (pre ++ (m, DMissing) :: post) (IInt p) = TId v /\
+  ((0 <= p)%Z -> dt_translate (pre ++ (m, DMissing) :: post) (IStr (dec p)) = TId v).
+Proof.
+  intros W Hin. apply dt_translate_position; [exact W|].
+  apply in_or_app. right. right. exact Hin.
+Qed.
+
+(* whatever a position id (int or digit string) is translated to other than itself is the value
+   of the element that carries that very id *)
+Lemma dt_translate_own_element d x v :
+  dt_translate d x = TId v -> v <> x -> In (dt_key x, DVal v) d.
+Proof.
+  unfold dt_translate. intros H Hne.
+  destruct (dt_lookup (dt_key x) d) as [[w|]|] eqn:E.
+  - inversion H; subst. exact (dt_lookup_some _ _ _ E).
+  - discriminate.
+  - inversion H; subst. exfalso. apply Hne. reflexivity.
+Qed.
